@@ -509,7 +509,17 @@ def m_regex_not_longest(fail):
         return False
     exp = set(fail["exp"]["m"])
     obs = set(o.get("m", []))
-    if not (obs < exp):
+    # (the same pattern under the other letter-case rule, evaluated in the same run: only missing selections there too)
+    strict = obs < exp
+    if not (obs <= exp):
+        return False
+    for k in ("m1", "m2"):
+        if k in o and k in fail["exp"]:
+            a, b = set(o[k]), set(fail["exp"][k])
+            if not (a <= b):
+                return False
+            strict = strict or a < b
+    if not strict:
         return False
     ast = fail["in"].get("ast")
     if ast is not None:
